@@ -132,6 +132,56 @@ class Ctx:
         for p in run.paths:
             for n, sp in p.unmodelled:
                 self.unmodelled[n] = self.unmodelled.get(n, 0) + 1
+            if p.status == "panic":
+                self._debug_assert(run, p)
+
+    def _debug_assert(self, run, p):
+        """R-DASSERT: a path that ends in the panic of a debug_assert*! (the rules skip such paths: the
+        release build goes on).  It is a violation when the path is realisable — every undecided
+        comparison on it relates plain values (entry fields, parameters, items, sorted copies, counts),
+        for which every order type consistent with the recorded facts exists — and INCONCLUSIVE when it
+        was reached through a comparison of computed quantities or of fields of an abstract entry
+        state (reachable states satisfy invariants the abstract state does not carry, e.g.
+        sum_2 = 0 implies sum_4 = 0)."""
+        from scen import is_debug_only, site, pc_show
+        import fnode as F
+        info = p.info or {}
+        sp = info.get("span") or {}
+        if not is_debug_only(sp):
+            return
+
+        def free(x):
+            """a value no invariant of a reachable state constrains: a literal, an observation /
+            parameter / iterator item (atom without a field path), or a sorted copy of such"""
+            if not isinstance(x, tuple):
+                return True
+            if x[0] == "lit":
+                return True
+            if x[0] == "atom":
+                return "." not in x[1] and "[" not in x[1]
+            if x[0] == "fn" and x[1] == "sorted":
+                return all(free(y) for y in x[4:])
+            return False
+        real = True
+        for e in p.pc:
+            if e[0] == "fcmp" and not (free(e[2]) and free(e[3])):
+                real = False
+            elif e[0] == "isnan" and not free(e[1]):
+                real = False
+            elif e[0] in ("icmp", "ovf"):
+                real = False   # integer state (counts, positions) is tied to the data by invariants
+        if p.inconclusive is not None:
+            real = False
+        fn = info.get("fn") or (run.fn if hasattr(run, "fn") else "?")
+        if not real:
+            # counted in the evidence only: on the pinned tree the crate's own invariant assertions
+            # (`debug_assert_ne!(sum_2, 0.)` after `sum_3 != 0`, `n[4] >= 0`) end up here
+            d = self.extra.setdefault("debug_assert_paths_not_decided", {})
+            k = "%s @ %s" % (fn, site(sp))
+            d[k] = d.get(k, 0) + 1
+            return
+        self.ob("R-DASSERT", "debug-assert:%s" % (site(sp).split(":")[0],), fn, site(sp), False,
+                "a debug build panics in a debug_assert at %s [path: %s]" % (site(sp), (pc_show(p.pc) or "unconditional")[:300]))
 
     def floor(self, what, measured, minimum):
         if self.variant:
@@ -147,6 +197,71 @@ class Ctx:
     def assume(self, text):
         if text not in self.assumptions:
             self.assumptions.append(text)
+
+
+def debug_region_effects(db, files):
+    """R-DASSERT (purity): the blocks that only a debug build executes — reachable from the true edge
+    of an `if cfg!(debug_assertions)` of debug_assert*! but not from its false edge — must not
+    take a mutable borrow, write through a reference or pass `&mut` to a call: a release build would
+    skip the effect (e.g. a counter incremented inside the asserted expression).
+    Returns [(fn path, site, what)] for functions defined in `files`."""
+    import re
+    out = []
+    for p, f in db.fns.items():
+        if db.fn_crate.get(p) != "average":
+            continue
+        sp = (f.get("span") or {}).get("sp", "")
+        m = re.search(r"(src/[\w/]+\.rs)", sp)
+        if files is not None and (not m or m.group(1) not in files):
+            continue
+        blocks = f["blocks"]
+
+        def succ(i):
+            t = blocks[i]["term"]
+            k = t.get("k")
+            s = []
+            if k == "switch":
+                s = [x[1] for x in t["targets"]] + [t["otherwise"]]
+            elif k in ("goto", "assert", "drop", "call", "falseedge", "falseunwind"):
+                if t.get("target") is not None:
+                    s = [t["target"]]
+            return [x for x in s if isinstance(x, int)]
+
+        def reach(i):
+            seen, st = set(), [i]
+            while st:
+                x = st.pop()
+                if x in seen or x >= len(blocks):
+                    continue
+                seen.add(x)
+                st.extend(succ(x))
+            return seen
+        for i, b in enumerate(blocks):
+            t = b["term"]
+            if t.get("k") != "switch":
+                continue
+            mx = (t.get("span") or {}).get("mx") or []
+            if not (any(x.startswith("macro:debug_assert") for x in mx) and any("cfg" in x for x in mx)):
+                continue
+            if not t["targets"] or not isinstance(t["otherwise"], int):
+                continue
+            region = reach(t["otherwise"]) - reach(t["targets"][0][1])
+            for j in sorted(region):
+                for s in blocks[j]["stmts"]:
+                    if s.get("k") != "assign":
+                        continue
+                    rv = s["rv"]
+                    if rv.get("k") == "ref" and rv.get("mut"):
+                        out.append((p, (s.get("span") or {}), "takes a mutable borrow"))
+                    pl = s.get("place") or {}
+                    if any(x == "deref" for x in pl.get("p", []) if isinstance(x, str)):
+                        out.append((p, (s.get("span") or {}), "writes through a reference"))
+                tt = blocks[j]["term"]
+                if tt.get("k") == "call":
+                    for ty in tt.get("argtys") or []:
+                        if ty.get("k") == "ref" and ty.get("mut"):
+                            out.append((p, (tt.get("span") or tt.get("fn_span") or {}), "passes a mutable reference to a call"))
+    return out
 
 
 def property_anchor_files(pid):
@@ -200,6 +315,17 @@ def main(argv):
         fatal = "extraction failed: %s" % e
     except Exception as e:
         fatal = "analysis crashed: %r\n%s" % (e, traceback.format_exc())
+    if not fatal:
+        try:
+            from scen import site as _site
+            eff = debug_region_effects(ctx.db("B"), set(property_anchor_files(pid)))
+            for fnp, sp, what in eff:
+                ctx.ob("R-DASSERT", "pure:%s" % fnp, fnp, _site(sp), False,
+                       "the expression of a debug_assert %s at %s: release builds skip that effect, so the two build profiles compute different states" % (what, _site(sp)))
+            if not eff:
+                ctx.ob("R-DASSERT", "pure", "-", "-", True, "no debug_assert expression of the anchored files takes a mutable borrow, writes through a reference or passes &mut to a call", nontrivial=False)
+        except Exception as e:
+            fatal = "analysis crashed: %r\n%s" % (e, traceback.format_exc())
     if not fatal:
         # R-CFG: bodies that depend on a cargo feature are analysed under that feature as well
         try:
